@@ -398,7 +398,7 @@ func runC15(c *ctx) {
 	}
 	randArr := func() []interface{} {
 		n := r.intn(9)
-		a := make([]interface{}, n)
+		a := make([]interface{}, n, n+r.intn(5)) // often with spare capacity, as a caller's or a decoded slice has
 		for i := range a {
 			a[i] = c15Domain[r.intn(len(c15Domain))]
 		}
@@ -419,7 +419,16 @@ func runC15(c *ctx) {
 		arg := []string{"a", "n", "s", "nothing", "b", "[]", "a[0]"}[r.intn(7)]
 		f := c15Fns[r.intn(len(c15Fns))]
 		var p string
-		switch r.intn(16) {
+		switch r.intn(18) {
+		case 16:
+			// two results derived from one base: neither may show the other's members
+			p = []string{`{"x": $append(a, "x"), "y": $append(a, "y"), "a": a}`, `$map(b, function($v){$append($$.a, $v)})`,
+				`($x := $append(a, 1); $y := $append(a, 2); [$count($x), $x[-1], $y[-1], $count(a)])`,
+				`($x := $append(a, b); $y := $append(a, n); {"x": $x, "y": $y})`, `{"r": $reverse(a), "a": a, "d": $distinct(a)}`,
+				`($x := $append($append(a, 1), 2); $y := $append($append(a, 1), 3); {"x": $x, "y": $y})`}[r.intn(6)]
+		case 17:
+			p = []string{`{"z1": $zip(a, b), "z2": $zip(a, n), "a": a}`, `[$count($append(a, a)), $count(a)]`, `($s := $sort(n); {"s": $s, "n": n, "r": $reverse($s), "s2": $s})`,
+				`$map(a, function($v, $i, $arr){$count($append($arr, $v))})`, `$reduce(b, function($acc, $v){$append($acc, $v)}, a) ~> $count()`}[r.intn(5)]
 		case 0:
 			p = "$map(" + arg + ", " + f + ")"
 		case 1:
